@@ -1,5 +1,5 @@
 /-
-  C02 (closed form, nested documents) — "nested braces versus dotted names": the two spellings
+  C02 (closed form, nested documents) — "nested braces versus dottedName names": the two spellings
 
       n1.n2.….nk = w1 … wj                 n1 {
                                               n2 {
@@ -7,22 +7,22 @@
                                               }
                                             }
 
-  (and likewise a dotted scope header `n1.….nk {` … `}` versus nested headers) parse to the same
+  (and likewise a dottedName scope header `n1.….nk {` … `}` versus nested headers) parse to the same
   scopes, definitions and words.  They do NOT parse to identical trees: `scope.adopt` marks the
-  objects it builds for a dotted name with `merge_names = True` (that flag only steers the printer),
+  objects it builds for a dottedName name with `merge_names = True` (that flag only steers the printer),
   gives all of them the primary id of the one item and no source line.  The statements are therefore
   "equal up to ids, source lines and the `merge_names` flag": `Obj.eraseMerge` is `Obj.erase` (ids and
   lines removed) plus `mergeNames := false` on every object.
 
   Vocabulary (definitions in Phil/Proofs/Layout2.lean, Phil/Proofs/PrintParseNested.lean):
-    * `dotted ns nm`            — the text `n1.….nk.nm`;
+    * `dottedName ns nm`            — the text `n1.….nk.nm`;
     * `wordsText ws`            — ` w1 w2 …` (one blank in front of every word, quoted words escaped);
     * `bracesText_l2 ns ind body` — `ind n1 {⏎` … `body (ind + 2k blanks)` … `ind }⏎`, two more blanks
                                    of indentation per level;
     * `bracesIn_l2 ns x`        — the tree `x` inside proper scopes `n1`, …, `nk`;
-    * `dottedIn_l2 ns x`        — the tree `scope.adopt` builds for the dotted name;
+    * `dottedIn_l2 ns x`        — the tree `scope.adopt` builds for the dottedName name;
     * `flatKids objs [] []`     — the canonical unwrapped text of a list of trees (C01Nested: `name {`
-                                   … `}` for a proper scope, a dotted name for a `merge_names` chain);
+                                   … `}` for a proper scope, a dottedName name for a `merge_names` chain);
     * `RTTree` (Phil/Props/C01Nested.lean) — enabled attribute-free trees with good undotted names.
 
   Property theorems only; lemmas are in Phil/Proofs/Layout2.lean.
@@ -43,7 +43,7 @@ theorem eraseMerge_spec (x : Obj) : x.eraseMerge = x.erase.eraseMerge ∧
     fun m os => by rw [Obj.eraseMerge, eraseMergeList_eq_map_l2]⟩
 
 /-- **General form: the spelling of chains does not matter.**  Two documents of `RTTree`s (each scope
-    either proper — braces — or a `merge_names` chain — dotted name) that are the same tree up to the
+    either proper — braces — or a `merge_names` chain — dottedName name) that are the same tree up to the
     `merge_names` flags: their canonical texts both parse, to trees equal up to ids, lines and
     `merge_names`.  (`ChainOK`: no unquoted word directly after a word containing a newline.) -/
 theorem spelling_independent (objs1 objs2 : List Obj)
@@ -62,8 +62,8 @@ theorem spelling_independent (objs1 objs2 : List Obj)
 /-- what is put below the path of scopes: a definition, or a proper scope with its children -/
 def ProperItem (x : Obj) : Prop :=
   match x with
-  | .defn m ws => PlainMeta false m ∧ goodName m.name = true ∧ ws ≠ [] ∧ (∀ w ∈ ws, goodWord w = true)
-  | .scope m os => PlainMeta false m ∧ goodName m.name = true ∧ ∀ c ∈ os, RTTree c
+  | .defn m ws => PlainMetaPP false m ∧ goodName m.name = true ∧ ws ≠ [] ∧ (∀ w ∈ ws, goodWord w = true)
+  | .scope m os => PlainMetaPP false m ∧ goodName m.name = true ∧ ∀ c ∈ os, RTTree c
 
 instance (x : Obj) : Decidable (ProperItem x) := by
   cases x <;> (unfold ProperItem; exact inferInstance)
@@ -83,10 +83,10 @@ theorem bracesIn_rtTree (ns : List Str) (x : Obj) (hns : ∀ n ∈ ns, goodName 
     (hx : ProperItem x) : RTTree (bracesIn_l2 ns x) :=
   rtnode_bracesIn_l2 ns x hns hx.rtTree
 
-/-- the dotted spelling of a proper item below good names is an `RTTree`, provided the dotted name
+/-- the dottedName spelling of a proper item below good names is an `RTTree`, provided the dottedName name
     is not a reserved identifier (`__a.b__`) -/
 theorem dottedIn_rtTree (ns : List Str) (x : Obj) (hns : ∀ n ∈ ns, goodName n = true)
-    (hx : ProperItem x) (hres : isReserved (dotted ns x.name) = false) : RTTree (dottedIn_l2 ns x) := by
+    (hx : ProperItem x) (hres : isReserved (dottedName ns x.name) = false) : RTTree (dottedIn_l2 ns x) := by
   have key : RTNode ([] ++ ns) (x.withMeta (fun m => { m with mergeNames := !ns.isEmpty })) := by
     cases x with
     | defn m ws =>
@@ -103,15 +103,15 @@ theorem dottedIn_rtTree (ns : List Str) (x : Obj) (hns : ∀ n ∈ ns, goodName 
       rw [hm]; rfl
   exact rtnode_nestIn_l2 ns _ [] hns key
 
-/-- **C02: nested braces versus dotted names, one item.**  `x` is a definition or a proper scope
-    (`ProperItem`), `ns` a list of good dot-free names, the dotted name `n1.….nk.name` is not a
-    reserved identifier, no unquoted word of `x` follows a word containing a newline.  The dotted
+/-- **C02: nested braces versus dottedName names, one item.**  `x` is a definition or a proper scope
+    (`ProperItem`), `ns` a list of good dot-free names, the dottedName name `n1.….nk.name` is not a
+    reserved identifier, no unquoted word of `x` follows a word containing a newline.  The dottedName
     spelling `n1.….nk.name …` and the canonical brace spelling `n1 {` … `name …` … `}` both parse to
     one object, and the two objects are equal up to ids, source lines and `merge_names` — namely the
     tree `bracesIn_l2 ns x` (up to those).  The texts are spelled out in `dotted_defn_text`,
     `braces_text`. -/
 theorem dotted_equals_nested_item (ns : List Str) (x : Obj) (hns : ∀ n ∈ ns, goodName n = true)
-    (hx : ProperItem x) (hres : isReserved (dotted ns x.name) = false) (hc : x.allDefns ChainOK) :
+    (hx : ProperItem x) (hres : isReserved (dottedName ns x.name) = false) (hc : x.allDefns ChainOK) :
     ∃ o1 o2, parseObjs (flatText (dottedIn_l2 ns x) [] []) = .ok [o1] ∧
       parseObjs (flatText (bracesIn_l2 ns x) [] []) = .ok [o2] ∧
       o1.eraseMerge = o2.eraseMerge ∧ o2.eraseMerge = (bracesIn_l2 ns x).eraseMerge := by
@@ -147,10 +147,10 @@ theorem dotted_equals_nested_item (ns : List Str) (x : Obj) (hns : ∀ n ∈ ns,
     simp only [eraseMergeList, List.cons.injEq, and_true] at e12
     rw [← e12, eraseMerge_dotted_braces_l2]
 
-/-- the dotted spelling of a definition, as text: `n1.….nk.nm = w1 … wj⏎` -/
+/-- the dottedName spelling of a definition, as text: `n1.….nk.nm = w1 … wj⏎` -/
 theorem dotted_defn_text (ns : List Str) (nm : Str) (ws : List Word) :
     flatText (dottedIn_l2 ns (.defn { name := nm } ws)) [] []
-      = dotted ns nm ++ [' ', '='] ++ wordsText ws ++ ['\n'] := by
+      = dottedName ns nm ++ [' ', '='] ++ wordsText ws ++ ['\n'] := by
   rw [dottedIn_l2, flatText_nestIn_l2 none ns _ [] false [] (by
     intro hne
     cases ns with
@@ -158,11 +158,11 @@ theorem dotted_defn_text (ns : List Str) (nm : Str) (ws : List Word) :
     | cons n ns => rfl)]
   simp [Obj.withMeta, flatText]
 
-/-- the dotted spelling of a scope, as text: `n1.….nk.nm {⏎`, the children indented by two blanks, `}⏎` -/
+/-- the dottedName spelling of a scope, as text: `n1.….nk.nm {⏎`, the children indented by two blanks, `}⏎` -/
 theorem dotted_scope_text (ns : List Str) (nm : Str) (kids : List Obj)
     (hk : firstMerges kids = false) :
     flatText (dottedIn_l2 ns (.scope { name := nm } kids)) [] []
-      = dotted ns nm ++ [' ', '{', '\n'] ++ flatKids kids [] [' ', ' '] ++ ['}', '\n'] := by
+      = dottedName ns nm ++ [' ', '{', '\n'] ++ flatKids kids [] [' ', ' '] ++ ['}', '\n'] := by
   rw [dottedIn_l2, flatText_nestIn_l2 none ns _ [] false [] (by
     intro hne
     cases ns with
@@ -177,15 +177,15 @@ theorem braces_text (ns : List Str) (x : Obj) (hx : x.meta.mergeNames = false) :
   flatText_bracesIn_l2 ns x hx []
 
 /-- **C02: `n1.….nk = words` versus `n1 { … nk = words … }`.**  For good dot-free names `ns`, `nm`
-    (the dotted name not a reserved identifier) and a good word list: both texts parse to a single
+    (the dottedName name not a reserved identifier) and a good word list: both texts parse to a single
     object; the two objects are equal up to ids, source lines and `merge_names`, and are — up to
     those — the definition `nm = words` inside the scopes `ns`. -/
 theorem dotted_equals_nested (ns : List Str) (nm : Str) (ws : List Word)
     (hns : ∀ n ∈ ns, goodName n = true) (hnm : goodName nm = true)
-    (hres : isReserved (dotted ns nm) = false)
+    (hres : isReserved (dottedName ns nm) = false)
     (hne : ws ≠ []) (hgood : ∀ w ∈ ws, goodWord w = true) (hchain : chainOK true ws = true) :
     ∃ o1 o2,
-      parseObjs (dotted ns nm ++ [' ', '='] ++ wordsText ws ++ ['\n']) = .ok [o1] ∧
+      parseObjs (dottedName ns nm ++ [' ', '='] ++ wordsText ws ++ ['\n']) = .ok [o1] ∧
       parseObjs (bracesText_l2 ns [] (fun ind => ind ++ nm ++ [' ', '='] ++ wordsText ws ++ ['\n']))
         = .ok [o2] ∧
       o1.eraseMerge = o2.eraseMerge ∧
@@ -203,13 +203,13 @@ theorem dotted_equals_nested (ns : List Str) (nm : Str) (ws : List Word)
   · rw [e2, eraseMerge_bracesIn_l2]
     rfl
 
-/-- **C02: the dotted scope header `n1.….nk.nm {` versus nested headers.**  `kids` are `RTTree`s. -/
+/-- **C02: the dottedName scope header `n1.….nk.nm {` versus nested headers.**  `kids` are `RTTree`s. -/
 theorem dotted_header_equals_nested (ns : List Str) (nm : Str) (kids : List Obj)
     (hns : ∀ n ∈ ns, goodName n = true) (hnm : goodName nm = true)
-    (hres : isReserved (dotted ns nm) = false)
+    (hres : isReserved (dottedName ns nm) = false)
     (hkids : ∀ c ∈ kids, RTTree c) (hchain : ∀ c ∈ kids, c.allDefns ChainOK) :
     ∃ o1 o2,
-      parseObjs (dotted ns nm ++ [' ', '{', '\n'] ++ flatKids kids [] [' ', ' '] ++ ['}', '\n']) = .ok [o1] ∧
+      parseObjs (dottedName ns nm ++ [' ', '{', '\n'] ++ flatKids kids [] [' ', ' '] ++ ['}', '\n']) = .ok [o1] ∧
       parseObjs (bracesText_l2 ns [] (fun ind =>
           ind ++ nm ++ [' ', '{', '\n'] ++ flatKids kids [] (ind ++ [' ', ' ']) ++ ind ++ ['}', '\n']))
         = .ok [o2] ∧
@@ -232,7 +232,7 @@ theorem dotted_header_equals_nested (ns : List Str) (nm : Str) (kids : List Obj)
 
 /-! ### documents: every item spelt either way -/
 
-/-- one item of a document: a proper item `x` below the path `ns`, spelt with a dotted name
+/-- one item of a document: a proper item `x` below the path `ns`, spelt with a dottedName name
     (`useDots = true`) or with braces -/
 structure SpeltItem where
   ns : List Str
@@ -248,15 +248,15 @@ def SpeltItem.tree (it : SpeltItem) : Obj := (bracesIn_l2 it.ns it.x).eraseMerge
 
 def SpeltItem.ok (it : SpeltItem) : Prop :=
   (∀ n ∈ it.ns, goodName n = true) ∧ ProperItem it.x ∧ it.x.allDefns ChainOK ∧
-    (it.useDots = true → isReserved (dotted it.ns it.x.name) = false)
+    (it.useDots = true → isReserved (dottedName it.ns it.x.name) = false)
 
 instance (it : SpeltItem) : Decidable it.ok := by unfold SpeltItem.ok; exact inferInstance
 
 /-- the text of a document of items: the canonical text of every item in its spelling -/
 def speltText (items : List SpeltItem) : Str := flatKids (items.map SpeltItem.obj) [] []
 
-/-- **C02: nested braces versus dotted names, whole documents.**  A document is a list of items, each
-    a definition or proper scope below a path of scope names, each spelt EITHER with a dotted name OR
+/-- **C02: nested braces versus dottedName names, whole documents.**  A document is a list of items, each
+    a definition or proper scope below a path of scope names, each spelt EITHER with a dottedName name OR
     with nested braces.  Its text parses, and the tree is — up to ids, source lines and `merge_names` —
     the list of the items' abstract trees `bracesIn_l2 ns x`, in which the choice of spelling does not
     occur. -/
@@ -319,7 +319,7 @@ example : ∃ o1 o2,
     [{ value := ['1'] }, { value := "x y".toList, quote := some .s1 }]
     (by decide +kernel) (by decide +kernel) (by decide +kernel) (by decide +kernel) (by decide +kernel)
     (by decide +kernel)
-  have t1 : dotted [['a'], ['b']] ['c'] ++ [' ', '='] ++
+  have t1 : dottedName [['a'], ['b']] ['c'] ++ [' ', '='] ++
       wordsText [{ value := ['1'] }, { value := "x y".toList, quote := some .s1 }] ++ ['\n']
       = "a.b.c = 1 'x y'\n".toList := by decide +kernel
   have t2 : bracesText_l2 [['a'], ['b']] [] (fun ind => ind ++ ['c'] ++ [' ', '='] ++
@@ -342,8 +342,8 @@ theorem dotted_and_nested_evaluated :
           [.defn { name := ['c'], id := some 3, line := some 3 } [{ value := ['1'], line := some 3 }]]]] := by
   decide +kernel
 
-/-- a document with three items: `a.b = 1` dotted, `a { c = 2 }` in braces, the empty scope `d.e`
-    dotted — and the same document with the opposite spellings -/
+/-- a document with three items: `a.b = 1` dottedName, `a { c = 2 }` in braces, the empty scope `d.e`
+    dottedName — and the same document with the opposite spellings -/
 def exItems (f : Bool) : List SpeltItem :=
   [ ⟨[['a']], .defn { name := ['b'] } [{ value := ['1'] }], f⟩,
     ⟨[['a']], .defn { name := ['c'] } [{ value := ['2'] }], !f⟩,
@@ -370,9 +370,9 @@ example : ∃ o1 o2, parseObjs "a.b = 1\na {\n  c = 2\n}\nd.e {\n}\n".toList = .
 
 /-! ### sharp edges (model = Python) -/
 
-/-- **The dotted spelling can be refused where the brace spelling is accepted**: the parser tests the
-    full dotted name against the reserved-identifier pattern, so `__a.b__ = 1` is an error although
-    `__a {` / `b__ = 1` / `}` parses.  Hence the hypothesis `isReserved (dotted ns nm) = false`. -/
+/-- **The dottedName spelling can be refused where the brace spelling is accepted**: the parser tests the
+    full dottedName name against the reserved-identifier pattern, so `__a.b__ = 1` is an error although
+    `__a {` / `b__ = 1` / `}` parses.  Hence the hypothesis `isReserved (dottedName ns nm) = false`. -/
 theorem dotted_reserved_but_nested_fine :
     parseObjs "__a.b__ = 1\n".toList = .error (.runtime "reserved" (some 1)) ∧
     parseObjs "__a {\n  b__ = 1\n}\n".toList = .ok
@@ -400,7 +400,7 @@ theorem dotted_names_do_not_merge :
     * `LayItem.defn path d L bang`  — the definition `d = (name, words)` under the flat layout `L`
       (`DefLayout` of C02Layout: filler lines and indentation in front, blanks around `=` and in front
       of every word, terminator newline / `;` / trailing `# comment` / nothing), written with the
-      dotted name `p1.….pk.name` for `path = [p1, …, pk]` (`[]`: the plain name), `!` glued to the
+      dottedName name `p1.….pk.name` for `path = [p1, …, pk]` (`[]`: the plain name), `!` glued to the
       name iff `bang`;
     * `LayItem.scope path nm bang pre gap kids close` — the scope `nm` (header `p1.….pk.nm`):
       `pre : Pre` the filler in front of the name (blank lines, whole-line comments, then
@@ -412,26 +412,26 @@ theorem dotted_names_do_not_merge :
       filler of whatever comes next.
     * `renderN xs post` — the text; `post` the filler after the last item.
     * `wfDocN xs post` (decidable) — every definition `goodDef`/`wfDef` as in the flat case; names:
-      every component `goodName`, the dotted name not a reserved identifier (`goodPathName_l2`);
+      every component `goodName`, the dottedName name not a reserved identifier (`goodPathName_l2`);
       every `Pre` well formed, `gapOK_l2 gap` (a filler line directly behind the name must not start
       with `#`: `name#c` is one word); a definition may end with nothing (`Terminator.eof`) only as
       last item of its block with `}` / the end of the text on the same line.
-    * `layTrees xs` — the abstract tree: names, chain structure of dotted names (`nestIn`, as
+    * `layTrees xs` — the abstract tree: names, chain structure of dottedName names (`nestIn`, as
       `scope.adopt` builds it), `!` flags, words; no ids, no lines, nothing of the layout.
     * `layObjs xs 1 1` — what the parser returns, in closed form (`parseObjs_renderN_l2`). -/
 
 /-- **C02, nested documents: the tree does not depend on the layout.**  For every well-formed layout
     `parse` of the rendered text succeeds; the tree is — up to ids and source lines — the abstract
     tree `layTrees xs`; the ids are those of C01Nested (`expIdsSeq 1`): one per definition / scope
-    header counted from 1 in document order, the scopes of a dotted name sharing the id of their
-    item — `1, 2, …, n` when no name is dotted (`nested_ids_undotted`). -/
+    header counted from 1 in document order, the scopes of a dottedName name sharing the id of their
+    item — `1, 2, …, n` when no name is dottedName (`nested_ids_undotted`). -/
 theorem layout_independent_nested (xs : List LayItem) (post : Pre) (h : wfDocN xs post = true) :
     ∃ objs, parseObjs (renderN xs post) = .ok objs ∧
       eraseList objs = eraseList (layTrees xs) ∧
       idsList objs = (expIdsSeq 1 (layTrees xs)).map some :=
   ⟨layObjs xs 1 1, parseObjs_renderN_l2 xs post h, layObjs_erase_l2 xs 1 1, layObjs_ids_l2 xs 1 1⟩
 
-/-- without dotted names (`noChains`) the ids are `1, 2, …, n` in document order, `n` the number of
+/-- without dottedName names (`noChains`) the ids are `1, 2, …, n` in document order, `n` the number of
     objects -/
 theorem nested_ids_undotted (xs : List LayItem) (h : ∀ x ∈ layTrees xs, x.noChains) :
     expIdsSeq 1 (layTrees xs) = List.range' 1 (nodesList (layTrees xs)) :=
@@ -448,11 +448,11 @@ theorem two_nested_layouts_same_tree (xs1 xs2 : List LayItem) (post1 post2 : Pre
   obtain ⟨o2, p2, e2, i2⟩ := layout_independent_nested xs2 post2 h2
   exact ⟨o1, o2, p1, p2, by rw [e1, e2, hsame], by rw [i1, i2, hsame]⟩
 
-/-- **Nested braces versus dotted names under ANY layout.**  Two well-formed layouts whose abstract
+/-- **Nested braces versus dottedName names under ANY layout.**  Two well-formed layouts whose abstract
     trees agree up to the `merge_names` flags — the same scopes, definitions, flags and words, every
-    item spelt with a dotted name or with nested braces, laid out in any well-formed way — parse to
+    item spelt with a dottedName name or with nested braces, laid out in any well-formed way — parse to
     trees equal up to ids, source lines and `merge_names`.  (`dotted_item_is_braces` shows what a
-    dotted item is up to `merge_names`: the item inside proper scopes.) -/
+    dottedName item is up to `merge_names`: the item inside proper scopes.) -/
 theorem dotted_equals_nested_any_layout (xs1 xs2 : List LayItem) (post1 post2 : Pre)
     (hsame : eraseMergeList (layTrees xs1) = eraseMergeList (layTrees xs2))
     (h1 : wfDocN xs1 post1 = true) (h2 : wfDocN xs2 post2 = true) :
@@ -462,7 +462,7 @@ theorem dotted_equals_nested_any_layout (xs1 xs2 : List LayItem) (post1 post2 : 
   obtain ⟨o2, p2, e2, _⟩ := layout_independent_nested xs2 post2 h2
   exact ⟨o1, o2, p1, p2, by rw [eraseMergeList_congr_l2 e1, eraseMergeList_congr_l2 e2, hsame]⟩
 
-/-- a dotted definition `p1.….pk.name = words` and a dotted header `p1.….pk.nm {` are, up to
+/-- a dottedName definition `p1.….pk.name = words` and a dottedName header `p1.….pk.nm {` are, up to
     `merge_names`, the definition / the scope inside the proper scopes `p1`, …, `pk` -/
 theorem dotted_item_is_braces (p : List Str) :
     (∀ (d : DefSpec) (L : DefLayout) (b : Bool), (LayItem.defn p d L b).tree.eraseMerge
@@ -501,7 +501,7 @@ theorem nested_same_as_canonical_text (xs : List LayItem) (post : Pre) (h : wfDo
     gives exactly the second tree — names, ids, source lines of objects and words, nesting — and the
     `is_disabled` flags of the first tree, in document order, are exactly the `!` flags of the layout
     (`layFlags`): a `!` on a scope disables that scope object (its body stays as it is, the children
-    are not flagged), a `!` on a definition disables that definition; in front of a dotted name it
+    are not flagged), a `!` on a definition disables that definition; in front of a dottedName name it
     disables the innermost object only (the scopes built for the leading components stay enabled). -/
 theorem bang_disables_exactly_one_nested (xs : List LayItem) (post : Pre)
     (h : wfDocN xs post = true) :
@@ -552,7 +552,7 @@ def exWildN (fa fy dots : Bool) : List LayItem :=
       { ind := [' '] },
     (if dots then
       .defn ["f".toList] ("g".toList, [w1 "4"])
-        { pre := { lines := [⟨[], some "now dotted".toList⟩], ind := ['\t'] }, sp1 := [' ', ' '],
+        { pre := { lines := [⟨[], some "now dottedName".toList⟩], ind := ['\t'] }, sp1 := [' ', ' '],
           gaps := [['\t']], term := .comment [' '] " tr".toList } false
      else
       .scope [] "f".toList false {} { lines := [⟨[], none⟩, ⟨[], none⟩] }
@@ -573,7 +573,7 @@ example : renderN (exWildN true true false) { ind := [' '] } =
   decide +kernel
 
 example : renderN (exWildN false false true) { ind := [' '] } =
-    "# head\nx = 1\n\n a # c\n\t{ #in\n  y=2 \"p\nq\"; e{ } z = 3 }#now dotted\n\tf.g  =\t4 # tr\n w = 4 ".toList := by
+    "# head\nx = 1\n\n a # c\n\t{ #in\n  y=2 \"p\nq\"; e{ } z = 3 }#now dottedName\n\tf.g  =\t4 # tr\n w = 4 ".toList := by
   decide +kernel
 
 theorem exCanonN_wf : wfDocN exCanonN {} = true := by decide +kernel
@@ -587,7 +587,7 @@ example : ∃ o1 o2, parseObjs (renderN exCanonN {}) = .ok o1 ∧
   two_nested_layouts_same_tree exCanonN (exWildN false false false) {} { ind := [' '] } (by decide +kernel)
     exCanonN_wf (exWildN_wf false false false)
 
-/-- the canonical layout against the wild layout with `f.g = 4` spelt dotted, through the theorem: the
+/-- the canonical layout against the wild layout with `f.g = 4` spelt dottedName, through the theorem: the
     same tree up to ids, lines and `merge_names` -/
 example : ∃ o1 o2, parseObjs (renderN exCanonN {}) = .ok o1 ∧
     parseObjs (renderN (exWildN false false true) { ind := [' '] }) = .ok o2 ∧
